@@ -329,6 +329,31 @@ func newWorld(dir, self string, bins map[string]string, rng *RNG) *world {
 			os.Mkdir(filepath.Join(dir, d), 0755)
 		}
 	}
+	// A device that has been approved or compared before has a lock file already, and that file is never
+	// rewritten: its modification time is the time of the device's FIRST run (hours, months or years ago, or in
+	// the future after a clock step), it may hold left-over text and odd modes.  Nothing of that may decide
+	// who holds the device.  (Seeded change C12-W1: a held lock counted as stale by the age of the lock file.)
+	if rng.Chance(60) {
+		os.MkdirAll(filepath.Join(dir, "lock"), 0755)
+		ages := []time.Duration{13 * time.Hour, 3 * 24 * time.Hour, 400 * 24 * time.Hour, 20 * 365 * 24 * time.Hour,
+			2 * time.Minute, -36 * time.Hour}
+		for _, d := range devices {
+			if rng.Chance(15) {
+				continue
+			}
+			lf := filepath.Join(dir, "lock", d)
+			content := ""
+			if rng.Chance(30) {
+				content = Pick(rng, []string{"4711\n", "locked by approve-all\n", strings.Repeat("x", 5000)})
+			}
+			os.WriteFile(lf, []byte(content), 0644)
+			if rng.Chance(20) {
+				os.Chmod(lf, 0600)
+			}
+			t := time.Now().Add(-ages[rng.Intn(len(ages))])
+			os.Chtimes(lf, t, t)
+		}
+	}
 	return w
 }
 
